@@ -171,6 +171,28 @@ func runC09Proc(e *Env) (int, error) {
 			c.Inv = procsim.Invocation{Kind: "stock", Args: []string{"-f", "json", "all.yaml"}, Cwd: c08Dir}
 			g = &C08Case{}
 		}
+		if run%12 == 9 {
+			// a layer written in another encoding (byte-order mark, UTF-16 /
+			// UTF-32): whether it is accepted or rejected must not depend on the run
+			doc := map[string]any{"enc": true, "n": r.Intn(5), "s": "text"}
+			ext := r.Pick("yaml", "json", "yaml")
+			text, _ := gen.StreamText(ext, []any{doc})
+			var raw string
+			for k := 0; k < 12; k++ {
+				m, kind := mutateBytes(r, text)
+				if strings.HasPrefix(kind, "encoding:") {
+					raw = m
+					break
+				}
+			}
+			if raw != "" {
+				c = &C09ProcCase{Tool: "bkl", Runs: []string{"1", "16", "1", "16", "4", "16", "1", "16", "2", "8"}}
+				c.World.Dirs = []string{c08Dir}
+				c.World.Files = []procsim.File{{Path: c08Dir + "/enc." + ext, Raw: &raw}}
+				c.Inv = procsim.Invocation{Kind: "stock", Args: []string{"-f", "json", "enc." + ext}, Cwd: c08Dir}
+				g = &C08Case{}
+			}
+		}
 		c.Inv.Injects, c.Inv.StdoutTo, c.Inv.Sched = nil, "", nil
 		if g.OutFile != "" || strings.Contains(strings.Join(g.Faults, " "), "symlink") {
 			return harness.RunResult{}
